@@ -5,6 +5,7 @@ go 1.21.0
 require (
 	github.com/foxboron/go-uefi v0.0.0
 	github.com/spf13/afero v1.9.3
+	go.mozilla.org/pkcs7 v0.0.0-20200128120323-432b2356ecb1
 )
 
 require (
